@@ -248,6 +248,8 @@ fn gen_c07(rng: &mut Rng, tier: &str, emit: Emit) {
             }
         }
     }
+    // append / prepend / insert on the boundary lattice of both lengths, every receiver type, every kind of argument
+    edit_lattice(rng, TYPES, &["F8x3", "F64x2", "F128x2", "D", "A"], emit);
     // extend / collect with iterators whose size_hint is exact, absent, a lower bound only, or an upper bound only
     for ty in TYPES {
         for hint in ["x", "n", "l", "f"] {
@@ -565,7 +567,49 @@ fn gen_c17(rng: &mut Rng, tier: &str, emit: Emit) {
     }
 }
 
+/// two-vector edits on a lattice: receiver length x argument length over word / inline-limit boundaries, each side with and
+/// without spare storage words (and, for `Bv`, in either storage mode), argument of every kind of implementation
+fn edit_lattice(rng: &mut Rng, recv: &[Ty], args: &[&str], emit: Emit) {
+    const LENS: [usize; 12] = [0, 1, 8, 63, 64, 65, 127, 128, 129, 192, 200, 256];
+    for ty in recv {
+        let cap = ty.cap().unwrap_or(usize::MAX);
+        for at in args {
+            let aty = ty_of(at);
+            let acap = aty.cap().unwrap_or(usize::MAX);
+            let mut rls: Vec<usize> = LENS.iter().copied().filter(|l| *l <= cap).collect();
+            if let Some(c) = ty.cap() {
+                rls.extend([c, c.saturating_sub(1), c.saturating_sub(ty.w)]);
+                rls.sort();
+                rls.dedup();
+            }
+            for rl in rls {
+                for xl in LENS.iter().copied().filter(|l| *l <= acap && *l <= 200) {
+                    if cap != usize::MAX && rl + xl > cap + 1 {
+                        continue;
+                    }
+                    for (rs, xs) in [(0usize, 0usize), (0, 1), (0, 2), (1, 0), (1, 1), (2, 3)] {
+                        if (rs > 0 && ty.kind == Kind::F) || (xs > 0 && aty.kind == Kind::F) {
+                            continue;
+                        }
+                        let v = vec_token(ty, &gen_bits(rng, rl), rs, rs > 0 || rng.chance(1, 3));
+                        let x = vec_token(&aty, &gen_bits(rng, xl), xs, xs > 0 || rng.chance(1, 3));
+                        match rng.below(3) {
+                            0 => emit(line("append", &[&v, &x])),
+                            1 => emit(line("prepend", &[&v, &x])),
+                            _ => emit(line("insert", &[&v, &s(match rng.below(3) { 0 => 0, 1 => rl, _ => rng.below(rl + 1) }), &x])),
+                        };
+                        if rng.chance(1, 2) {
+                            emit(line("append", &[&v, &x]));
+                        }
+                    }
+                }
+            }
+        }
+    }
+}
+
 fn gen_c18(rng: &mut Rng, tier: &str, emit: Emit) {
+    edit_lattice(rng, &[ty_of("D"), ty_of("A")], &["F8x3", "F16x5", "F64x2", "F64x3", "F128x2", "D", "A"], emit);
     for ty in [ty_of("D"), ty_of("A")] {
         for c in [0usize, 1, 63, 64, 65, 127, 128, 129, 191, 192, 193, 1000] {
             emit(line("with_capacity", &[ty.tag, &s(c)]));
